@@ -221,7 +221,9 @@ func (this *BWT) inverseMergeTPSI(src, dst []byte, count int) (uint, uint, error
 	}
 
 	// Lazy dynamic memory allocation
-	minLenBuf := max(count, 64)
+	// At least 256 entries: with a corrupted primary index the walk below can
+	// reach the 0xFF00 marker early and continue from index 255
+	minLenBuf := max(count, 256)
 
 	if len(this.buffer) < minLenBuf {
 		this.buffer = make([]int32, minLenBuf)
